@@ -250,12 +250,12 @@ func (r *Run) teardown() {
 	r.Settle()
 	// Let outstanding timers (resend delays, maintainers) expire.
 	for i := 0; i < 50 && !r.Failed(); i++ {
-		r.Sleep(time.Minute)
-		r.Settle()
-		r.Drain()
 		if len(r.DhtGoroutines()) == 0 {
 			break
 		}
+		r.Sleep(time.Minute)
+		r.Settle()
+		r.Drain()
 	}
 	if r.NoLeakCheck || r.Failed() {
 		return
